@@ -21,7 +21,7 @@ CHECKS = {
   "note": "Trusted: cgstatic's abstract interpreter; library tables (which networkx/dict/set methods mutate, which copy); node attribute values immutable; BlackBox objects shared by design. A call that passes parameter state to an unresolved callee is ANALYSIS-ERROR, not a pass.",
  },
  "C07": {
-  "technique": "static: guard + mutation-statement extraction from circuit.py tabulated over finite abstract domains; writer-site allow-table; syntax-directed check-before-mutate ordering walk",
+  "technique": "static: guard + mutation-statement extraction from circuit.py tabulated over finite abstract domains; writer-site allow-table; syntax-directed check-before-mutate ordering walk; exhaustive short call histories (and uid histories without state de-duplication) evaluated on the repository's own class by the checker's AST evaluator",
   "text": "For connect, add, uid and set_type every abstract call state (types x existing fan-in/fan-out x argument shapes x flags) is tabulated: a call whose post-state would break a wiring invariant raises ValueError having added no edge, accepted calls leave a legal post-state with edges in the right direction, uid never returns a used name. Raw graph/registry writers in class Circuit are confined to an allow-table; in add/add_blackbox/add_subcircuit/fill_blackbox no explicit-raise-capable point follows an edge-adding point (known findings listed). The invariant over arbitrary call histories is the inductive consequence and is argued, not mechanised.",
   "design_ref": "DESIGN.md section 3 C07",
   "note": "Trusted: cgstatic's extractor and model circuit; networkx add_node/add_edges_from/update semantics; implicit exceptions (KeyError on a missing node in set_output) are outside the ordering rule; callers editing c.graph directly are out of scope.",
@@ -87,8 +87,8 @@ CHECKS = {
   "note": 'Trusted: sat.solve / sat.model_count replaced by reference brute force (the real ones are decided by C01/C08); approx and supergates modes not covered.',
  },
  "C12": {
-  "technique": "static: Circuit's query methods evaluated from source by the checker's own AST evaluator (cgstatic.minieval) over reference model objects (cgstatic.refmodel); the package is never imported or run by CPython, no solver, exhaustive over all labelled digraphs on <= 3 nodes (subset/all on 4); syntactic direction-table rule",
-  "text": 'fanin/fanout, transitive_fanin/out, startpoints/endpoints (reflexive, with blackbox pins), is_cyclic, topo_sort, fanin_depth/fanout_depth, reconvergent_fanout_nodes/has_reconvergent_fanout, kcuts (size bound + separation) and props.levelize agree with their graph-theoretic definitions on every enumerated graph, cyclic ones included (raise where documented).',
+  "technique": "static: Circuit's query methods evaluated from source by the checker's own AST evaluator (cgstatic.minieval) over reference model objects (cgstatic.refmodel); the package is never imported or run by CPython, no solver, exhaustive over all labelled digraphs on <= 3 nodes (subset/all on 4); syntactic direction-table rule; structural call-depth rule (no call to itself per step along fan-in / fan-out)",
+  "text": 'fanin/fanout, transitive_fanin/out, startpoints/endpoints (reflexive, with blackbox pins), is_cyclic, topo_sort, fanin_depth/fanout_depth, reconvergent_fanout_nodes/has_reconvergent_fanout, kcuts (size bound + separation) and props.levelize agree with their graph-theoretic definitions on every enumerated graph, cyclic ones included (raise where documented), for single nodes, node lists and empty node lists; three recorded findings: fanin_depth / fanout_depth / kcuts recurse once per step along the graph (RecursionError on a chain of about 1000 nodes).',
   "design_ref": 'DESIGN.md section 3 C12',
   "note": 'Trusted: reference DiGraph model of predecessors/successors/ancestors/descendants/topological order; graphs above 4 nodes.',
  },
